@@ -466,7 +466,7 @@ func runFcgi(mode string) sim.RigFunc {
 			fmt.Fprintf(&b, "\tlimits {\n\t\tbody /app %d\n\t}\n", r.limit)
 		}
 		c.Params["body_limit"] = r.limit
-		b.WriteString("\tfastcgi /app 10.8.0.1:9000 {\n\t\text .php\n\t\tsplit .php\n\t\tindex index.php\n\t\tenv APP_ENV prod\n\t\tenv REQ_HOST {host}\n\t\tenv RULE_ONE yes\n")
+		b.WriteString("\tfastcgi /app 10.8.0.1:9000 {\n\t\text .php\n\t\tsplit .php\n\t\tindex index.php\n\t\tenv APP_ENV prod\n\t\tenv REQ_HOST {host}\n\t\tenv REQ_QUERY q:{query}\n\t\tenv RULE_ONE yes\n")
 		r.readTimeout = 60 * time.Second
 		if st.Draw(3) == 0 && mode == "C19" {
 			b.WriteString("\t\tread_timeout 5s\n")
@@ -483,7 +483,7 @@ func runFcgi(mode string) sim.RigFunc {
 			if r.ext2 == "cgi" {
 				split2 = ".cgi"
 			}
-			fmt.Fprintf(&b, "\tfastcgi /app 10.8.0.1:9000 {\n\t\text %s\n\t\tsplit %s\n\t\tenv APP_ENV prod\n\t\tenv REQ_HOST {host}\n\t\tenv RULE_TWO yes\n\t}\n", r.ext2, split2)
+			fmt.Fprintf(&b, "\tfastcgi /app 10.8.0.1:9000 {\n\t\text %s\n\t\tsplit %s\n\t\tenv APP_ENV prod\n\t\tenv REQ_HOST {host}\n\t\tenv REQ_QUERY q:{query}\n\t\tenv RULE_TWO yes\n\t}\n", r.ext2, split2)
 			c.Params["second_rule_ext"] = r.ext2
 		}
 		r.catchAll = mode == "C19" && r.prefix == "" && st.Draw(2) == 0
@@ -669,6 +669,14 @@ func (r *fcgiRig) addReq(i int) {
 		sc.reason = "Reason"
 	}
 	sc.hdrs = [][2]string{{"Content-Type", "text/plain; charset=utf-8"}, {"X-Resp-Tok", fmt.Sprintf("tok%d", i)}}
+	if st.Draw(3) == 0 {
+		// a field on several lines: each of them is the responder's
+		sc.hdrs = append(sc.hdrs, [2]string{"Set-Cookie", "sid=abc; Path=/"}, [2]string{"Set-Cookie", "lang=en; Path=/"})
+	}
+	if sc.status == 200 && st.Draw(4) == 0 {
+		// an explicit Status wins over what a Location alone would mean
+		sc.hdrs = append(sc.hdrs, [2]string{"Location", "/created/here"})
+	}
 	if sc.status == 302 {
 		sc.hdrs = append(sc.hdrs, [2]string{"Location", "/elsewhere"})
 	}
@@ -706,6 +714,14 @@ func (r *fcgiRig) addReq(i int) {
 	ne := st.Draw(3)
 	for k := 0; k < ne; k++ {
 		sc.stderr = append(sc.stderr, fmt.Sprintf("STDERR-%d-%d warning line\n", i, k))
+	}
+	if st.Draw(12) == 0 {
+		// a responder that complains at length: more than 64 KiB on stderr, then some more
+		for k := 0; k < 4; k++ {
+			sc.stderr = append(sc.stderr, fmt.Sprintf("BIG-STDERR-%d-%d ", i, k)+strings.Repeat("x", 30000)+"\n")
+		}
+		sc.stderr = append(sc.stderr, fmt.Sprintf("STDERR-%d-after-the-flood\n", i))
+		r.c.Probe("stderr-beyond-64KiB")
 	}
 	if len(sc.cuts) > 0 && st.Draw(8) == 0 {
 		sc.burst = []int{99, 100, 150, 400}[st.Draw(4)]
@@ -916,6 +932,7 @@ func (r *fcgiRig) judge() {
 		}
 		// ---- what the responder received ----
 		want := map[string]string{"REQUEST_METHOD": q.method, "QUERY_STRING": q.query, "APP_ENV": "prod", "REQ_HOST": "f.test", "GATEWAY_INTERFACE": "CGI/1.1", "HTTP_HOST": "f.test"}
+		want["REQ_QUERY"] = "q:" + q.query // (a configured entry with a placeholder: expanded for every request anew)
 		if q.scriptName != "" {
 			want["SCRIPT_NAME"] = r.prefix + q.scriptName
 			want["PATH_INFO"] = q.pathInfo
@@ -993,9 +1010,18 @@ func (r *fcgiRig) judge() {
 		if resp.Status != wantStatus {
 			c.Violate("C13/status-differs", how, "request %d: responder said %d (Status header: %v, Location without Status: %v), client got %d", q.id, wantStatus, sc.status != 0, sc.cgiRedir, resp.Status)
 		}
+		wantH := map[string][]string{}
+		var wantKeys []string
 		for _, h := range sc.hdrs {
-			if got := resp.Header.Get(h[0]); got != h[1] {
-				c.Violate("C13/header-differs", h[0], "request %d: response header %s: responder sent %q, client got %q", q.id, h[0], h[1], got)
+			k := http.CanonicalHeaderKey(h[0])
+			if _, ok := wantH[k]; !ok {
+				wantKeys = append(wantKeys, k)
+			}
+			wantH[k] = append(wantH[k], h[1])
+		}
+		for _, k := range wantKeys {
+			if got := resp.Header.Values(k); strings.Join(got, "\x00") != strings.Join(wantH[k], "\x00") {
+				c.Violate("C13/header-differs", k, "request %d: response header %s: responder sent %q, client got %q", q.id, k, wantH[k], got)
 			}
 		}
 		// ... and no header the responder did not send (framing, Date and Server of the front server,
